@@ -9,5 +9,5 @@ Extraction "../ocaml/c10/model.ml"
   Z.add Z.mul Z.sub Z.div_eucl Z.compare Z.of_nat Z.to_nat
   all_ops route_of reduce_route
   sfv_cmp_elem sfv_binop_elem sf_get sf_materialise sfv_index
-  view_index materialise np_index reduce_plan
+  view_index materialise np_index chain np_chain is_value reduce_plan
   all_sub_fields.
